@@ -171,6 +171,8 @@ package command
 //@   ensures !ret ==> forall a string :: has(chain.writeLocks, a) == old(has(chain.writeLocks, a)) && has(chain.readLocks, a) == old(has(chain.readLocks, a))
 //@   ensures forall a string :: (old(has(chain.writeLocks, a)) ==> has(chain.writeLocks, a)) && (old(has(chain.readLocks, a)) ==> has(chain.readLocks, a))
 //@   ensures forall a string :: has(chain.writeLocks, a) && !old(has(chain.writeLocks, a)) ==> occurs(intent.accounts.Write, a) > 0
+//@   update lockPhase = ite(ret, put(lockPhase, intent.acquired, 2), lockPhase)
+//@   modifies map[string]*atomic.Int64, map[string]struct{}, ghost lockPhase
 //@   loop 1 invariant 0 - 1 <= rangeindex && rangeindex < len(intent.accounts.Read)
 //@   loop 1 invariant forall j in 0..rangeindex+1 :: !has(chain.writeLocks, intent.accounts.Read[j])
 //@   loop 2 invariant 0 - 1 <= rangeindex && rangeindex < len(intent.accounts.Write)
@@ -190,12 +192,45 @@ package command
 //@   ensures forall a string :: has(chain.writeLocks, a) ==> old(has(chain.writeLocks, a))
 //@   ensures forall a string :: old(has(chain.writeLocks, a)) && !has(chain.writeLocks, a) ==> occurs(intent.accounts.Write, a) > 0
 //@   ensures forall a string :: has(chain.readLocks, a) ==> old(has(chain.readLocks, a))
+//@   update lockPhase = put(lockPhase, intent.acquired, 3)
+//@   modifies map[string]*atomic.Int64, map[string]struct{}, ghost lockPhase
 //@   loop 1 invariant 0 - 1 <= rangeindex && rangeindex < len(intent.accounts.Read) && chain.readLocks == old(chain.readLocks)
 //@   loop 1 invariant forall a string :: has(chain.readLocks, a) ==> old(has(chain.readLocks, a))
 //@   loop 2 invariant 0 - 1 <= rangeindex && rangeindex < len(intent.accounts.Write) && chain.writeLocks == old(chain.writeLocks)
 //@   loop 2 invariant forall j in 0..rangeindex+1 :: !has(chain.writeLocks, intent.accounts.Write[j])
 //@   loop 2 invariant forall a string :: has(chain.writeLocks, a) ==> old(has(chain.writeLocks, a))
 //@   loop 2 invariant forall a string :: old(has(chain.writeLocks, a)) && !has(chain.writeLocks, a) ==> occurs(intent.accounts.Write[:rangeindex+1], a) > 0
+//@   property C15
+
+// ---- C15, cancellation. The lock table, the queue and the 'acquired' channels are shared between all requests and
+// protected by DefaultLocker.mu. Whenever the mutex is free, a waiting request has not been signalled, and nothing that does
+// not exist yet has a phase. Between two critical sections of a request (and at any channel operation outside one) the
+// other requests run: to a request created by this call they do one thing only -- grant it while it waits (a releasing
+// request's recheck: phase 1 -> 2 together with the close of its channel); a closed channel stays closed.
+// So what a request reads outside the mutex is stale by the time it acts on it: deciding "not granted" there and
+// withdrawing afterwards leaves a granted request behind (its accounts locked for ever).
+//@ monitor command.DefaultLocker.mu protects ghost lockPhase, chan acquired invariant (forall c0 ref :: lockPhase[c0] == 1 ==> !closed(c0)) && (forall c1 ref :: !allocated(c1) ==> lockPhase[c1] == 0) interference forall c2 ref :: fresh(c2) ==> (old(closed(c2)) ==> closed(c2)) && (lockPhase[c2] == old(lockPhase[c2]) || (old(lockPhase[c2]) == 1 && lockPhase[c2] == 2 && closed(c2))) && (old(lockPhase[c2]) != 1 ==> closed(c2) == old(closed(c2))) // C15
+
+// Lock: a request that returns an error leaves nothing behind -- whatever it created is neither waiting nor granted;
+// a request that returns its unlock function has been granted.
+//@ func (*command.DefaultLocker).Lock
+//@   requires defaultLocker != nil
+//@   assumes defaultLocker.intents != nil && defaultLocker.readLocks != nil && defaultLocker.writeLocks != nil
+//@   assumes forall c3 ref :: !allocated(c3) ==> lockPhase[c3] == 0
+//@   ensures err != nil ==> forall c4 ref :: fresh(c4) ==> lockPhase[c4] != 1 && lockPhase[c4] != 2
+//@   ensures ret0 != nil ==> forall c5 ref :: fresh(c5) && lockPhase[c5] != 0 ==> lockPhase[c5] == 2
+//@   property C15
+// recheck (run by a releasing request under the mutex): walks the queue and grants what can be granted; a request only
+// ever moves from waiting to granted here, and its channel is closed in the same critical section
+//@ func (*command.DefaultLocker).Lock$1
+//@   assumes defaultLocker != nil && defaultLocker.intents != nil && defaultLocker.readLocks != nil && defaultLocker.writeLocks != nil
+//@   ensures forall c6 ref :: (old(closed(c6)) ==> closed(c6)) && (lockPhase[c6] == old(lockPhase[c6]) || (old(lockPhase[c6]) == 1 && lockPhase[c6] == 2 && closed(c6)))
+//@   ensures forall c7 ref :: lockPhase[c7] == 1 ==> old(lockPhase[c7]) == 1 && closed(c7) == old(closed(c7))
+//@   loop 1 invariant forall c8 ref :: (old(closed(c8)) ==> closed(c8)) && (lockPhase[c8] == old(lockPhase[c8]) || (old(lockPhase[c8]) == 1 && lockPhase[c8] == 2 && closed(c8)))
+//@   loop 1 invariant forall c9 ref :: lockPhase[c9] == 1 ==> old(lockPhase[c9]) == 1 && closed(c9) == old(closed(c9))
+//@   loop 1 invariant node != nil ==> node.object != nil && node.list != nil && lockPhase[node.object.acquired] == 1 && (node.previousNode != nil ==> node.previousNode != node) && (node.nextNode != nil ==> node.nextNode != node)
+//@   loop 1 invariant defaultLocker != nil && defaultLocker.intents != nil && defaultLocker.readLocks != nil && defaultLocker.writeLocks != nil
+//@   modifies map[string]*atomic.Int64, map[string]struct{}, ghost lockPhase, chan, pkg:collectionutils
 //@   property C15
 
 // ---- the compile cache (C08): a hit returns what was stored under the key computed from this text; a miss returns
